@@ -116,7 +116,7 @@ def name_codes(name):
 
 class TapeWriter:
     name = "tape_writer"
-    props = ("C14", "C13")
+    props = ("C14", "C13", "C16", "C09")
     strict_contract = True
 
     def cells(self, tier):
@@ -326,16 +326,23 @@ class TapeWriter:
         f, name, ftype, dtype, load, exe, data = self._file(env, F, cell["n"], "numeric", native)
         cas, B0 = self._fresh_cassette(env, F, native)
         if native:
+            before = list(data)
             F.method(cas, "add_file", f)
             self._native_files_check(env, F.get(cas, "buffer"), B0, [(name, ftype, dtype, load, exe, data)], KEY + "add_file::post:tape-file")
+            env.ensure(KEY + "add_file::post:frame:file-data-unchanged", list(F.get(f, "data")) == before, ("C16", "C09"),
+                       lambda: "add_file:file-data-modified:%d->%d" % (len(before), len(list(F.get(f, "data")))))
             return
         gap, leader = self._measure(env, F)
         v = self._add_file_verifier(env, F)
+        seq0 = data.seq
         with v.installed():
             F.method(cas, "add_file", f)
         buf = F.get(cas, "buffer")
         env.ensure(KEY + "add_file::post:tape-file",
                    mk(buf.seq == z3.Concat(B0, self._want_file(name, ftype, dtype, load, exe, data, gap, leader))), ("C14",))
+        # the CoCoFile is outside the frame: its data list is the same object with the same contents (it goes to other containers)
+        d2 = F.get(f, "data")
+        env.ensure(KEY + "add_file::post:frame:file-data-unchanged", (d2 is data) and z3.eq(d2.seq, seq0), ("C16", "C09"))
 
     def f_add_files(self, env, cell, F, native):
         """add_files is the fold of add_file over the list, in list order (add_file through its contract)"""
